@@ -34,6 +34,8 @@ struct Fail {
     key: String,
     msg: String,
     step: usize,
+    /// further properties whose predicate the same failure breaks
+    also: Vec<String>,
 }
 
 struct World {
@@ -103,7 +105,7 @@ impl World {
 }
 
 fn f(step: usize, key: &str, msg: String) -> Fail {
-    Fail { key: key.into(), msg, step }
+    Fail { key: key.into(), msg, step, also: vec![] }
 }
 
 /// Compare the real view of replica r with the spec's expected view; returns the real view.
@@ -508,7 +510,14 @@ fn run_beh(beh: &Value, args: &Args, notes: &mut Vec<String>) -> Result<(u64, us
                     }
                     (Ok(_), _) => drift += 1,
                 }
-                check_view(&mut w, r, st.g("view"), si, was_poisoned)?;
+                if let Err(mut e) = check_view(&mut w, r, st.g("view"), si, was_poisoned) {
+                    if was_poisoned && !e.key.starts_with("C06:") {
+                        // the transaction held a rejected command: whatever differs from the
+                        // spec's committed state is also a trace of that command (C06)
+                        e.also.push("C06:trace-after-reject".into());
+                    }
+                    return Err(e);
+                }
             }
             o => return Err(f(si, "tool:op", format!("unknown op {o}"))),
         }
@@ -529,7 +538,7 @@ pub fn run(args: &Args) {
                 if fl.key.starts_with("tool:") {
                     vrt::die(&format!("behaviour {i} step {}: {}: {}", fl.step, fl.key, fl.msg));
                 }
-                out.fail(i, fl.step as i64, &fl.key, &fl.msg, Value::Null)
+                out.emit(json!({"i": i, "ok": false, "step": fl.step, "key": fl.key, "msg": fl.msg, "also": fl.also, "obs": Value::Null}))
             }
             Err(p) => {
                 let (prop, si) = PHASE.with(|x| *x.borrow());
